@@ -71,6 +71,8 @@ Definition construct_esi (e : esi) : res bytes :=
   | Esi0 v =>
       (* esi_bytes = hex(v) digits, left-padded with '0' to 18 when shorter; a2b_hex raises on an
          odd number of digits; more than 18 digits are written as they are *)
+      (* if not 0 <= esi_value < 2 ** 72: raise ValueError (the value is a natural number here) *)
+      if 4722366482869645213696 <=? v then Exc else
       let h := hex_digits v in
       let h := if h <? 18 then 18 else h in
       if h mod 2 =? 1 then Exc else Ok ([0] ++ be (N.to_nat (h / 2)) v)
